@@ -99,9 +99,9 @@ class FS:
         del self.files[name]
 
     def glob(self, pattern):
-        assert pattern.endswith('*-wpullinc'), pattern
-        prefix = pattern[:-len('*-wpullinc')]
-        return sorted(n for n in self.files if n.startswith(prefix) and n.endswith('-wpullinc'))
+        # glob.glob over a flat directory: shell-style matching of the whole name ([seq], ?, * are live in the pattern)
+        import fnmatch
+        return sorted(n for n in self.files if fnmatch.fnmatchcase(n, pattern))
 
 
 class PyFile:
@@ -290,6 +290,7 @@ def install(rec_mod, fs):
     rec_mod.os = types.SimpleNamespace(path=p, remove=fs.remove)
     rec_mod.gzip = types.SimpleNamespace(GzipFile=lambda filename=None, mode='rb', **k: GzModel(fs, filename, mode))
     install_fstat()
-    rec_mod.glob = types.SimpleNamespace(glob=fs.glob)
+    import glob as _glob
+    rec_mod.glob = types.SimpleNamespace(glob=fs.glob, escape=_glob.escape)
     import wpull.util
     wpull.util.truncate_file = lambda path: PyFile(fs, path, 'wb').close()
